@@ -49,6 +49,10 @@ def make_robot(trial, layout):
             if spec["on_enable"]: ns["on_enable"] = lambda self: rec("on_enable", self)
             if spec["on_disable"]: ns["on_disable"] = lambda self: rec("on_disable", self)
             base_ns = {k: will_reset_to(v) for k, v in spec["resets"].items() if k.startswith("inh")}
+            # a marker the subclass RE-DECLARES with another default (the subclass's wins), and a base marker the subclass replaces by a
+            # plain attribute (no longer a marker: must never be touched by the reset)
+            if spec.get("override"): base_ns["own_b"] = will_reset_to("base-default-must-not-win")
+            if spec.get("shadow"): base_ns["other"] = will_reset_to("base-marker-shadowed")
             for k, v in spec["resets"].items():
                 if not k.startswith("inh"): ns[k] = will_reset_to(v)
             ns["other"] = 7
@@ -65,7 +69,7 @@ def make_robot(trial, layout):
                 getter.__name__ = fb; getter.__annotations__ = {"return": (list[int] if fb == "hist" else int)}
                 return feedback(getter)
             for fb in spec["feedbacks"]:
-                ns[fb] = mk_getter(fb)
+                (base_ns if (fb == "speed" and spec.get("inherit_fb")) else ns)[fb] = mk_getter(fb)       # some @feedback methods are inherited from the base class
             Base = type(f"Base_{trial}_{cn}", (), base_ns)
             return type(f"Comp_{trial}_{cn}", (Base,), ns)
         comp_classes[cn] = mk()
@@ -110,7 +114,8 @@ for trial in range(N):
     for i in range(ncomp):
         layout["comps"][f"c{i}"] = {"on_enable": rnd.random() < 0.7, "on_disable": rnd.random() < 0.7,
                                     "resets": {k: rnd.choice([0, False, "d"]) for k in rnd.sample(["inh_a", "own_b", "own_c"], rnd.randrange(0, 3))},
-                                    "feedbacks": sorted(rnd.sample(["get_x", "hist", "speed"], rnd.randrange(0, 4)))}
+                                    "feedbacks": sorted(rnd.sample(["get_x", "hist", "speed"], rnd.randrange(0, 4))),
+                                    "override": rnd.random() < 0.3, "shadow": rnd.random() < 0.3, "inherit_fb": rnd.random() < 0.5}
     layout["same_class"] = rnd.random() < 0.25
     Robot, RAISE, VALUES = make_robot(trial, layout)
     robot = Robot(); robot.createObjects(); robot._automodes = Mock(); robot._automodes.modes = {}
